@@ -922,9 +922,12 @@ func genID(t *rapid.T) *Val {
 	return &Val{T: name, V: S(strconv.FormatUint(v, 10))}
 }
 
-func genCase(t *rapid.T) Case {
+func genCase(t *rapid.T) Case { return genCaseN(t, 0, 4, 0, 6) }
+
+// genCaseN draws a tile with minL..maxL layers of minF..maxF features.
+func genCaseN(t *rapid.T, minL, maxL, minF, maxF int) Case {
 	var c Case
-	nl := rapid.IntRange(0, 4).Draw(t, "layers")
+	nl := rapid.IntRange(minL, maxL).Draw(t, "layers")
 	for i := 0; i < nl; i++ {
 		l := Layer{
 			Version: uint32(rapid.IntRange(1, 2).Draw(t, "version")),
@@ -935,7 +938,7 @@ func genCase(t *rapid.T) Case {
 		} else {
 			l.Name = S(genString(t, "name"))
 		}
-		nf := rapid.IntRange(0, 6).Draw(t, "features")
+		nf := rapid.IntRange(minF, maxF).Draw(t, "features")
 		for j := 0; j < nf; j++ {
 			var f Feat
 			if rapid.IntRange(0, 9).Draw(t, "nilgeom") != 0 {
@@ -1195,6 +1198,19 @@ func TestReplay(t *testing.T) {
 	name, raw, ok := stats.Replaying()
 	if !ok {
 		t.Skip("no replay file")
+	}
+	if name == seqTest {
+		var sc SeqCase
+		if err := json.Unmarshal(raw, &sc); err != nil {
+			t.Fatal(err)
+		}
+		// the retained-value failures depend on allocator / pool state: several attempts
+		for k := 0; k < 5; k++ {
+			if err := stats.Guard(func() error { _, err := runSeq(sc); return err }); err != nil {
+				t.Fatalf("replayed sequence still fails (attempt %d): %v", k+1, err)
+			}
+		}
+		return
 	}
 	if name == deltaTest {
 		var dc DeltaCase
